@@ -97,10 +97,12 @@ func NewDnsConn(opt TraditionalDnsConnOpts, conn NetConn) *TraditionalDnsConn {
 func (dc *TraditionalDnsConn) exchange(ctx context.Context, q []byte) (*[]byte, error) {
 	select {
 	case <-dc.closeNotify:
+		(*tdcOneTimeExchanger)(dc).WithdrawReserved()
 		return nil, ErrTDCClosed
 	default:
 	}
 
+	// The reservation made by ReserveNewQuery is converted into a queue entry here.
 	assignedQid, respChan := dc.addQueueC()
 	if respChan == nil {
 		return nil, ErrTDCTooManyQueries
@@ -256,11 +258,15 @@ func (dc *TraditionalDnsConn) queueLen() int {
 }
 
 // addQueueC assigns a qid and add it to the queue.
+// It consumes the reservation made by ReserveNewQuery.
 // It returns a nil c if queue has too many queries.
 // Caller must call deleteQueueC to release the qid in queue.
 func (dc *TraditionalDnsConn) addQueueC() (qid uint16, c chan *[]byte) {
 	c = make(chan *[]byte, 1) // buffered: readLoop must be able to hand over a reply before the caller waits
 	dc.queueMu.Lock()
+	// Release the reservation: from now on the query is counted by its queue entry.
+	// Counting it twice would halve the capacity of the connection.
+	dc.reservedQuery--
 	for i := 0; i < 100; i++ {
 		qid = dc.nextQid
 		dc.nextQid++
@@ -302,7 +308,7 @@ type tdcOneTimeExchanger TraditionalDnsConn
 var _ ReservedExchanger = (*tdcOneTimeExchanger)(nil)
 
 func (ote *tdcOneTimeExchanger) ExchangeReserved(ctx context.Context, q []byte) (resp *[]byte, err error) {
-	defer ote.WithdrawReserved()
+	// exchange releases the reservation.
 	return (*TraditionalDnsConn)(ote).exchange(ctx, q)
 }
 
